@@ -20,9 +20,10 @@ EXPLANATION = (
     'relation of the one total order with the operands in written order; (C09.6) the whole comparison table - 13 '
     'representative values of all classes x 13 x six operators - on the real comparison methods against one total '
     'order, except text-left/non-text-right pairs (F17); (C09.7) constant cells evaluate to the value class of '
-    'their content ("" is a text, None a blank).')
+    'their content ("" is a text, None a blank).'
+    ' (C09.6) 22 representative values incl. numeric-looking texts; (C09.8) the ordered comparisons as library calls on native arguments made one after the other in one process, forwards and backwards (functools.lru_cache is modelled as a real memo keyed by hash and equality).')
 NOT_DECIDED = 'trichotomy / transitivity over concrete strings and floats'
-TRUSTED = ['tuple comparison semantics of Python for the (precedence, value) keys']
+TRUSTED = ['tuple comparison semantics of Python for the (precedence, value) keys', 'functools.lru_cache keyed by hash/equality of the arguments (True == 1 == 1.0 unless typed)']
 
 CMP = {'__lt__': ast.Lt, '__le__': ast.LtE, '__eq__': ast.Eq, '__ne__': ast.NotEq, '__gt__': ast.Gt, '__ge__': ast.GtE}
 WRAPPERS = {'OP_EQ': ast.Eq, 'OP_NE': ast.NotEq, 'OP_GT': ast.Gt, 'OP_LT': ast.Lt, 'OP_GE': ast.GtE, 'OP_LE': ast.LtE}
